@@ -560,6 +560,68 @@ def wl_rate_types(ctx, rng, case):
         sc.cleanup()
 
 
+def wl_rebind(ctx, rng, case):
+    """a path is RE-USED while an earlier on-disk filter on it is still open (`f = BloomFilterOnDisk(p, ...)` assigned twice: the second
+    object is built before the first is released): the new filter owns the file's contents from then on.  Whatever the lingering handle
+    does when it is finally closed or collected - before or after the new filter is closed - every key added to the NEW filter is present
+    when the file is opened again.  (What the lingering handle may do to the recorded element COUNT is not judged here.)"""
+    import gc
+
+    import probables as P
+
+    e1, r1, m1, k1 = gen.bloom_geometry(rng, small=rng.random() < 0.7)
+    for _ in range(50):
+        e2, r2, m2, k2 = gen.bloom_geometry(rng, small=rng.random() < 0.7)
+        if (m2, k2) != (m1, k1):
+            break
+    keys = gen.universe(rng, rng.randint(3, 16))
+    order = rng.choice(["new closed first, then the lingering handle", "lingering handle closed first", "lingering handle collected after the new one was closed",
+                        "lingering handle released by the assignment itself"])
+    case.desc = {"old": (e1, r1, m1, k1), "new": (e2, r2, m2, k2), "order": order, "n_keys": len(keys)}
+    sc = bl.Scratch(ctx, case)
+    try:
+        p = sc.path("rebind")
+        f = P.BloomFilterOnDisk(p, e1, r1)
+        for kx in keys[: len(keys) // 2]:
+            f.add(kx)
+        if order.endswith("assignment itself"):
+            f = P.BloomFilterOnDisk(p, e2, r2)  # the old object is released right here, after the new one was built
+            new = f
+            gc.collect()
+        else:
+            new = P.BloomFilterOnDisk(p, e2, r2)
+        for kx in keys:
+            new.add(kx)
+        for kx in keys:
+            ctx.check(new.check(kx), "added key reported absent by the filter that re-used the path", key=kx)
+        if order.startswith("new closed first"):
+            new.close()
+            f.close()
+        elif order.startswith("lingering handle closed first"):
+            f.close()
+            new.close()
+        elif order.startswith("lingering handle collected"):
+            new.close()
+            del f
+            gc.collect()
+        else:
+            new.close()
+        for how, o in (("on-disk reopen", P.BloomFilterOnDisk(p)), ("filepath load", P.BloomFilter(filepath=p))):
+            ctx.check((o.number_bits, o.number_hashes) == (m2, k2), f"{how} of a re-used path does not have the geometry of the filter that owns it ({order})",
+                      got=(o.number_bits, o.number_hashes), new=(m2, k2), old=(m1, k1))
+            for kx in keys:
+                ctx.counters["oracle_evaluations"] += 1
+                if not o.check(kx):
+                    ctx.fail(f"added key reported absent after the {how} of a re-used path ({order})", key=kx)
+            if hasattr(o, "close"):
+                o.close()
+        ctx.count("full_probes")
+        ctx.count("paths_reused_while_an_earlier_filter_was_open")
+        case.nontrivial = True
+    finally:
+        sc.cleanup()
+
+
 def wl_large_dense(ctx, rng, case):
     """LARGE filters (bit arrays of 40 KiB .. 200 KiB, number_bits not a multiple of 8) filled DENSELY: a hand-written strategy sends
     thousands of keys to chosen positions so that every byte of the array carries a bit of some key; the keys are split over two
@@ -646,10 +708,11 @@ PROP = Prop(
         Workload("many_keys", wl_many_keys, quick=12, thorough=600),
         Workload("large_dense", wl_large_dense, quick=6, thorough=90),
         Workload("rate_types", wl_rate_types, quick=40, thorough=2500),
+        Workload("rebind", wl_rebind, quick=40, thorough=4000),
         Workload("plain", wl_plain, quick=1600, thorough=120000),
         Workload("expanding", wl_expanding, quick=1000, thorough=80000),
     ],
     assumptions=["shadow set kept by the harness; a key is 'added' once add/add_alt returned normally",
                  "geometries are screened with the independent sizing so that number_bits/number_hashes are unambiguous"],
-    required=["full_probes", "monotonicity_checks", "op.reload", "op.union", "cases_with_growth", "many_key_cases", "rate_type_cases_on_the_float32_edge"],
+    required=["full_probes", "monotonicity_checks", "op.reload", "op.union", "cases_with_growth", "many_key_cases", "rate_type_cases_on_the_float32_edge", "paths_reused_while_an_earlier_filter_was_open"],
 )
